@@ -111,6 +111,53 @@ pub fn check_bytes(bytes: &[u8], cuts: &[usize], max_read: usize) -> Result<(boo
             ))
         }
     }
+    // the typed entry points: from_reader under the same chunking against from_slice, and each
+    // against the untyped decode (Ok exactly when the document is of that kind, and then the same map)
+    type Typed<'a> = (&'static str, Box<dyn Fn() -> sourcemap::Result<DecodedMap> + 'a>, Box<dyn Fn(&mut Chunked) -> sourcemap::Result<DecodedMap> + 'a>);
+    let typed: Vec<Typed> = vec![
+        (
+            "SourceMap",
+            Box::new(|| sourcemap::SourceMap::from_slice(bytes).map(DecodedMap::Regular)),
+            Box::new(|r: &mut Chunked| sourcemap::SourceMap::from_reader(r).map(DecodedMap::Regular)),
+        ),
+        (
+            "SourceMapIndex",
+            Box::new(|| sourcemap::SourceMapIndex::from_slice(bytes).map(DecodedMap::Index)),
+            Box::new(|r: &mut Chunked| sourcemap::SourceMapIndex::from_reader(r).map(DecodedMap::Index)),
+        ),
+        (
+            "SourceMapHermes",
+            Box::new(|| sourcemap::SourceMapHermes::from_slice(bytes).map(DecodedMap::Hermes)),
+            Box::new(|r: &mut Chunked| sourcemap::SourceMapHermes::from_reader(r).map(DecodedMap::Hermes)),
+        ),
+    ];
+    for (ty, from_slice, from_reader) in &typed {
+        let s = dec_with(&format!("{ty}::from_slice"), from_slice)?;
+        let mut rdr = Chunked { data: bytes, pos: 0, cuts, max_read, reads: 0 };
+        let r = dec_with(&format!("{ty}::from_reader"), || from_reader(&mut rdr))?;
+        let (so, ro) = (outcome(&s), outcome(&r));
+        if so != ro {
+            return Err(format!(
+                "{ty}::from_slice is {} but {ty}::from_reader is {} (cuts {cuts:?}, max_read {max_read})",
+                s.as_ref().map(|_| "Ok".to_string()).unwrap_or_else(|e| format!("Err({e})")),
+                r.as_ref().map(|_| "Ok (or a different map)".to_string()).unwrap_or_else(|e| format!("Err({e})")),
+            ));
+        }
+        let kind_matches = match (&by_slice, *ty) {
+            (Ok(DecodedMap::Regular(_)), "SourceMap") | (Ok(DecodedMap::Index(_)), "SourceMapIndex") | (Ok(DecodedMap::Hermes(_)), "SourceMapHermes") => true,
+            _ => false,
+        };
+        match (&so, kind_matches) {
+            (Ok(x), true) => {
+                if Ok(x) != a.as_ref() {
+                    return Err(format!("{ty}::from_slice decodes to a different map than decode_slice"));
+                }
+            }
+            (Err(()), false) => {}
+            (Ok(_), false) => return Err(format!("{ty}::from_slice accepts a document that decode_slice {}", if by_slice.is_ok() { "decodes as another kind of map" } else { "rejects" })),
+            (Err(()), true) => return Err(format!("{ty}::from_slice rejects a document that decode_slice decodes as that kind of map")),
+        }
+    }
     // detection predicates
     let ds = guard(|| is_sourcemap_slice(bytes)).map_err(|p| format!("is_sourcemap_slice: {p}"))?;
     let mut rdr = Chunked { data: bytes, pos: 0, cuts, max_read, reads: 0 };
